@@ -94,6 +94,11 @@ def environments(full=False):
                  "platform_release": RELEASES[(i + j) % 3], "extra": EXTRA_ENVS[(i + 2 * j) % len(EXTRA_ENVS)],
                  "platform_version": ENV_STRINGS["platform_version"][(i + 2 * j) % 3]}
             envs.append(e)
+    # the values the witness shapes of the suites are written with (os_name a/c, sys_platform x, platform_machine b, extra e), so that those shapes are
+    # told apart by meaning too
+    for k, (osn, sp, pm) in enumerate(itertools.product(("a", "c"), ("x", "linux"), ("b", "x86_64"))):
+        envs.append({"python_full_version": "3.8.5" if k % 2 else "3.6.0", "python_version": "3.8" if k % 2 else "3.6", "os_name": osn, "sys_platform": sp, "platform_machine": pm,
+                     "implementation_name": "cpython", "platform_release": RELEASES[k % 3], "extra": "e" if k % 3 == 0 else "", "platform_version": "10.0"})
     return envs
 
 
